@@ -26,6 +26,16 @@ CHECKS = {
             'sqlite stands in for MySQL/PostgreSQL; update times distinct; an under-deletion or crash is reported as divergence, not '
             'as violation (the property says "only").',
             'TLA+ algorithm-vs-expectation model checked by TLC + exhaustive case replay on real rows with TLC trace validation', '6.3'),
+    'C13': ('sched', 'model_checking',
+            'Scheduler.tla / LegacyScheduler.tla model every separately committed step of both scheduler implementations (persist in the '
+            'caller transaction, in-memory dispatch, capture CAS, invoke, delete, store poll, crash between any two steps, clock); TLC '
+            'checks NotEarly, OnceWithinTimeout, NeverIfRolledBack, OnlyScheduled, HasJobsExact exhaustively for 2-3 instances x 2-3 jobs '
+            '(serial and open-transaction modes) and AtLeastOnce/Drains under fairness. Real DefaultScheduler/LegacyScheduler objects '
+            'sharing one database are stepped along TLC-simulated behaviours and seeded random schedules; every recorded execution is '
+            'judged by TLC with the same formulas (SchedulerObsTrace) and validated as a model behaviour (SchedulerTrace).',
+            'Serial transactions in one process (tx_lock): statement-level races between scheduler processes are model-level only. '
+            'Dispatcher condition variable / thread pool replaced by harness gates; virtual clock; sqlite.',
+            'TLA+ model checked by TLC (safety + liveness) + spec-guided and random executions of the real objects validated by TLC', '6.1'),
 }
 
 NOT_YET = 'check not built yet (build in progress; see DESIGN.md section 12)'
